@@ -332,7 +332,7 @@ def _chain(f, local, kinds=("ref", "use", "cast", "tuple", "array")):
     return seen
 
 
-def resolve_strs(f, local, depth=0):
+def resolve_strs(f, local, depth=0, where=None):
     """the finite set of string constants a local can hold: constants, copies, elements of a constant array iterated by a `for`
     loop (into_iter / iter + next).  None when anything else can flow in."""
     if depth > 40:
@@ -349,10 +349,12 @@ def resolve_strs(f, local, depth=0):
                     if "c" in o:
                         if "str" in o["c"]:
                             out.add(o["c"]["str"])
+                            if where is not None:
+                                where.setdefault(o["c"]["str"], set()).add(bb)
                         else:
                             return None
                     else:
-                        r = resolve_strs(f, o["p"][0], depth + 1)
+                        r = resolve_strs(f, o["p"][0], depth + 1, where)
                         if r is None:
                             return None
                         out |= r
@@ -363,7 +365,7 @@ def resolve_strs(f, local, depth=0):
             if c.dst and c.dst[0] != local:
                 continue      # `&mut` side effect of a call on an iterator: not a new value
             if c.name in ("next", "into_iter", "iter", "copied", "cloned", "deref", "as_str", "clone", "borrow", "as_ref") and c.krate in ("core", "alloc", "std") and c.args and "p" in c.args[0]:
-                r = resolve_strs(f, c.args[0]["p"][0], depth + 1)
+                r = resolve_strs(f, c.args[0]["p"][0], depth + 1, where)
                 if r is None:
                     return None
                 out |= r
@@ -410,12 +412,15 @@ def dynamic_sites(f):
         for l in _chain(f, c.args[1]["p"][0]):
             for bb, kind, x in f.defs().get(l, []):
                 if kind == "call" and x.name in ("new_display",) and x.args and "p" in x.args[0] and x.dst and x.dst[0] == l:
-                    vals = resolve_strs(f, x.args[0]["p"][0])
+                    where = {}
+                    vals = resolve_strs(f, x.args[0]["p"][0], 0, where)
         if not vals:
             continue
         for v in sorted(vals):
             text = pieces[0] + v + pieces[1]
-            out.append(SqlSite(f, c.bb, text, Stmt(text)))
+            site = SqlSite(f, c.bb, text, Stmt(text))
+            site.val_bbs = sorted(where.get(v, ()))      # where the interpolated constant is chosen (e.g. a match arm)
+            out.append(site)
     return out
 
 
